@@ -20,7 +20,7 @@ SPACE = [
     ("shell_order", ["grouped", "reversed", "interleaved", "rotated", "perm2", "perm3", "skip-first-center"]),
     ("conventions", ["own", "fchk", "molden", "wfn", "mwfn", "horton2", "cca", "orca", "scr1", "scr2"]),
     ("mo", ["restricted", "rohf", "rohf-triplet", "beta-hole", "fractional", "aminusb", "aminusb-neg", "aminusb-zero", "unrestricted", "unrestricted-na>nb", "occupied-only", "irreps", "unrestricted-occupied-only"]),
-    ("extras", ["none", "rdm-scf", "rdm-scf+spin", "rdm-post", "energy-none", "title-none", "atcharges", "mo_spin"]),
+    ("extras", ["none", "rdm-scf", "rdm-scf+spin", "rdm-post", "energy-none", "title-none", "atcharges", "mo_spin", "fortran-arrays", "strided-arrays"]),
 ]
 
 CENTER_Z = [8, 1, 1, 6, 7, 3]
@@ -214,6 +214,10 @@ def build(case, target, seed=0):
     elif ex == "mo_spin":  # the Multiwfn $MOSPIN labels a WFN reader stores in extra
         kw["extra"] = {"mo_spin": np.array([3] * mo.norba) if mo.kind == "restricted" else np.array([1] * mo.norba + [2] * mo.norbb)}
     data = IOData(**kw)
+    if ex in ("fortran-arrays", "strided-arrays"):  # same values, another memory layout of every array
+        from props import roundtrip
+
+        data = roundtrip.relayout(data, "F" if ex == "fortran-arrays" else "strided")
     return data, {"nbasis": nb, "ncenter": ncenter}
 
 
